@@ -156,6 +156,13 @@ type sEnv struct {
 	codes   map[types.Object]codeSym
 	depth   int
 	results []types.Object // named results of the function being evaluated (for naked returns)
+	// boolean locals holding a condition (scopeChanged := c.u0&2 != 0)
+	bools map[types.Object]boolVal
+}
+
+type boolVal struct {
+	c    *Cnd
+	swap bool
 }
 
 func (e *sEnv) clone() *sEnv {
@@ -165,6 +172,12 @@ func (e *sEnv) clone() *sEnv {
 	}
 	for k, v := range e.codes {
 		n.codes[k] = v
+	}
+	if e.bools != nil {
+		n.bools = map[types.Object]boolVal{}
+		for k, v := range e.bools {
+			n.bools[k] = v
+		}
 	}
 	return n
 }
@@ -289,6 +302,45 @@ func (e *sEnv) codeOf(x ast.Expr) (codeSym, error) {
 			site.Why = fmt.Sprintf("eff(%s) = mod(code(%s), code(%s))", a.Metric, a.Metric, b.Metric)
 			e.c.mods = append(e.c.mods, site)
 			return codeSym{Metric: a.Metric, Eff: true}, nil
+		}
+		// conversion of a code: uint8(x), int(x)…
+		if tv, ok := p.Info.Types[call.Fun]; ok && tv.IsType() && len(call.Args) == 1 {
+			if b, ok := tv.Type.Underlying().(*types.Basic); ok && b.Info()&types.IsInteger != 0 {
+				return e.codeOf(call.Args[0])
+			}
+		}
+		// accessor: a package function or method on the object whose body is a
+		// single `return <integer expression>`; its value is that expression's
+		if fn != nil && fn.Pkg() == p.P.Types && e.depth < 6 {
+			if fd := p.FuncObj[fn]; fd != nil && fd.Body != nil && len(fd.Body.List) == 1 {
+				if rs, ok := fd.Body.List[0].(*ast.ReturnStmt); ok && len(rs.Results) == 1 {
+					okRecv := true
+					if fd.Recv != nil {
+						se, isSel := call.Fun.(*ast.SelectorExpr)
+						if !isSel {
+							okRecv = false
+						} else if tv, ok := p.Info.Types[se.X]; !ok || !p.isTPtrOrVal(tv.Type) {
+							okRecv = false
+						}
+					}
+					params := paramObjs(p.Info, fd)
+					if okRecv && len(params) == len(call.Args) {
+						callee := &sEnv{c: e.c, vars: map[types.Object]*Ex{}, codes: map[types.Object]codeSym{}, depth: e.depth + 1}
+						okArgs := true
+						for i, po := range params {
+							c, err := e.codeOf(call.Args[i])
+							if err != nil {
+								okArgs = false
+								break
+							}
+							callee.codes[po] = c
+						}
+						if okArgs {
+							return callee.codeOf(rs.Results[0])
+						}
+					}
+				}
+			}
 		}
 		return codeSym{}, e.fail(x, "call does not produce a metric code")
 	}
@@ -417,6 +469,23 @@ func (e *sEnv) ex(x ast.Expr) (*Ex, error) {
 			return nil, e.fail(x, "conversion to %s", tv.Type)
 		}
 		fn := calleeOf(info, n)
+		if id, ok := n.Fun.(*ast.Ident); ok && fn == nil {
+			if _, isB := info.Uses[id].(*types.Builtin); isB && (id.Name == "min" || id.Name == "max") && len(n.Args) >= 2 {
+				var args []*Ex
+				for _, a := range n.Args {
+					v, err := e.ex(a)
+					if err != nil {
+						return nil, err
+					}
+					args = append(args, v)
+				}
+				out := args[0]
+				for _, a := range args[1:] {
+					out = mkCall(id.Name, out, a)
+				}
+				return out, nil
+			}
+		}
 		if fn == nil {
 			return nil, e.fail(x, "dynamic or builtin call in a formula")
 		}
@@ -452,7 +521,7 @@ func (e *sEnv) ex(x ast.Expr) (*Ex, error) {
 		}
 		sig := fn.Type().(*types.Signature)
 		// weight helper: all parameters uint8, result float64, not a method
-		if sig.Recv() == nil && sig.Params().Len() >= 1 && sig.Results().Len() == 1 && isFloat(sig.Results().At(0).Type()) {
+		if sig.Recv() == nil && sig.Params().Len() >= 1 && sig.Results().Len() == 1 && isFloat(sig.Results().At(0).Type()) && p.isLeafHelper(fd) {
 			all8 := true
 			for i := 0; i < sig.Params().Len(); i++ {
 				if !isUint8(sig.Params().At(i).Type()) {
@@ -476,7 +545,7 @@ func (e *sEnv) ex(x ast.Expr) (*Ex, error) {
 		}
 		// generalised weight helper: float result, at least one metric-code argument, every
 		// other argument a package-level table or constant (e.g. weight(ciaWeights, code))
-		if sig.Recv() == nil && sig.Results().Len() == 1 && isFloat(sig.Results().At(0).Type()) && len(n.Args) >= 2 {
+		if sig.Recv() == nil && sig.Results().Len() == 1 && isFloat(sig.Results().At(0).Type()) && len(n.Args) >= 2 && p.isLeafHelper(fd) {
 			var cs []codeSym
 			var idx []int
 			var names []string
@@ -574,6 +643,15 @@ func (e *sEnv) ex(x ast.Expr) (*Ex, error) {
 					return nil, err
 				}
 				callee.codes[po] = c
+			} else if b, ok := po.Type().Underlying().(*types.Basic); ok && b.Info()&types.IsBoolean != 0 {
+				c, swap, err := e.cond(n.Args[i])
+				if err != nil {
+					return nil, err
+				}
+				if callee.bools == nil {
+					callee.bools = map[types.Object]boolVal{}
+				}
+				callee.bools[po] = boolVal{c, swap}
 			} else {
 				v, err := e.ex(n.Args[i])
 				if err != nil {
@@ -615,6 +693,11 @@ func (e *sEnv) cond(x ast.Expr) (*Cnd, bool, error) {
 		c, swap, err := e.cond(u.X)
 		return c, !swap, err
 	}
+	if id, ok := x.(*ast.Ident); ok {
+		if bv, ok := e.bools[identObj(info, id)]; ok {
+			return bv.c, bv.swap, nil
+		}
+	}
 	if be, ok := x.(*ast.BinaryExpr); ok {
 		lt, rt := info.Types[be.X].Type, info.Types[be.Y].Type
 		hasCode := p.containsObjField(x)
@@ -622,6 +705,14 @@ func (e *sEnv) cond(x ast.Expr) (*Cnd, bool, error) {
 			if id, ok := n.(*ast.Ident); ok {
 				if _, isCode := e.codes[identObj(info, id)]; isCode {
 					hasCode = true
+				}
+			}
+			// an integer-valued accessor of the object
+			if c, ok := n.(*ast.CallExpr); ok {
+				if fn := calleeOf(info, c); fn != nil && fn.Pkg() == p.P.Types {
+					if sig, ok := fn.Type().(*types.Signature); ok && sig.Recv() != nil && sig.Results().Len() == 1 && isUint8(sig.Results().At(0).Type()) {
+						hasCode = true
+					}
 				}
 			}
 			return true
@@ -678,6 +769,11 @@ func (e *sEnv) cond(x ast.Expr) (*Cnd, bool, error) {
 			if tv, ok := info.Types[y.Fun]; ok && tv.IsType() {
 				return true
 			}
+			// accessors of the object (c.s(), c.scope()…): evaluated concretely by the
+			// tabulation below; the bytes they read are found through the callee
+			if fn := calleeOf(info, y); fn != nil && fn.Pkg() == p.P.Types && p.FuncObj[fn] != nil {
+				return true
+			}
 			bad = e.fail(y, "call inside a code-level condition")
 			return false
 		}
@@ -686,7 +782,7 @@ func (e *sEnv) cond(x ast.Expr) (*Cnd, bool, error) {
 	if bad != nil {
 		return nil, false, bad
 	}
-	for _, r := range p.readersIn(x) {
+	for _, r := range p.readersTransitive(x) {
 		for _, m := range r.Metrics {
 			if !seen[m] {
 				seen[m] = true
@@ -760,6 +856,69 @@ func (e *sEnv) cond(x ast.Expr) (*Cnd, bool, error) {
 	for _, in := range inputs {
 		names = append(names, in.name)
 	}
+	// a condition on (Modified metric, base metric) that only depends on the
+	// effective value is the condition on the effective value
+	if len(names) == 2 {
+		ov := vocab[p.Key]
+		mi, bi := -1, -1
+		for i, nm := range names {
+			if om := ov.byAbv[nm]; om != nil && om.ModifiedOf != "" {
+				for j, other := range names {
+					if other == om.ModifiedOf {
+						mi, bi = i, j
+					}
+				}
+			}
+		}
+		if mi >= 0 {
+			effName := "e" + names[bi]
+			if ed := p.atomDomain(effName); len(ed) > 0 {
+				nd := ov.ND
+				effOf := func(t []string) string {
+					if t[mi] != nd {
+						return t[mi]
+					}
+					return t[bi]
+				}
+				sat := map[string]bool{}
+				for _, t := range tuples {
+					sat[strings.Join(t, ",")] = true
+				}
+				byEff := map[string]int{} // 1 = all satisfy, 2 = none, 3 = mixed
+				for _, mv := range p.atomDomain(names[mi]) {
+					for _, bv := range p.atomDomain(names[bi]) {
+						t := make([]string, 2)
+						t[mi], t[bi] = mv, bv
+						e := effOf(t)
+						st := 2
+						if sat[strings.Join(t, ",")] {
+							st = 1
+						}
+						if prev, ok := byEff[e]; ok && prev != st {
+							byEff[e] = 3
+						} else if !ok {
+							byEff[e] = st
+						}
+					}
+				}
+				pure := true
+				var et [][]string
+				for _, ev := range ed {
+					switch byEff[ev] {
+					case 1:
+						et = append(et, []string{ev})
+					case 2:
+					default:
+						pure = false
+					}
+				}
+				if pure {
+					c, swap := metricAtom([]string{effName}, et, p.atomDomain)
+					return c, swap, nil
+				}
+			}
+		}
+	}
 	c, swap := metricAtom(names, tuples, p.atomDomain)
 	return c, swap, nil
 }
@@ -783,6 +942,17 @@ func (e *sEnv) assign(lhs ast.Expr, rhs ast.Expr) error {
 			return err
 		}
 		e.codes[o] = c
+		return nil
+	}
+	if b, ok := o.Type().Underlying().(*types.Basic); ok && b.Info()&types.IsBoolean != 0 {
+		c, swap, err := e.cond(rhs)
+		if err != nil {
+			return err
+		}
+		if e.bools == nil {
+			e.bools = map[types.Object]boolVal{}
+		}
+		e.bools[o] = boolVal{c, swap}
 		return nil
 	}
 	v, err := e.ex(rhs)
@@ -1581,4 +1751,27 @@ func (p *Pkg) isPkgLevelOrConst(e ast.Expr) bool {
 		}
 	}
 	return false
+}
+
+// isLeafHelper: the function calls no other float-valued package function, so
+// it can only be a table of weights (a switch or lookup on its code
+// arguments). A helper that combines other helpers is a piece of a formula
+// and is inlined instead.
+func (p *Pkg) isLeafHelper(fd *ast.FuncDecl) bool {
+	leaf := true
+	ast.Inspect(fd.Body, func(n ast.Node) bool {
+		c, ok := n.(*ast.CallExpr)
+		if !ok {
+			return true
+		}
+		fn := calleeOf(p.Info, c)
+		if fn == nil || fn.Pkg() != p.P.Types {
+			return true
+		}
+		if sig, ok := fn.Type().(*types.Signature); ok && sig.Results().Len() == 1 && isFloat(sig.Results().At(0).Type()) {
+			leaf = false
+		}
+		return true
+	})
+	return leaf
 }
